@@ -8,6 +8,7 @@
  * Markers: write(JV_MARK_FD, text, n) with JV_MARK_FD = -4242 is swallowed and logged.
  * Fault injection: JV_SHIM_FAIL="<nth>:<errno>[:short=<bytes>]" fails the nth (1-based) counted
  * call (write / fsync / ftruncate / lseek on the db descriptor) issued after the marker "ARM";
+ * the marker "ARM2" re-arms with JV_SHIM_FAIL2 (second fault of a pair, in a later commit);
  * with short=<bytes> a write first transfers that many bytes successfully (short write) and the
  * next write call on the descriptor fails with <errno>.
  * JV_SHIM_GATE="<event>:<n>:<dir>": at the nth occurrence of event (open|write|fsync|mmap|close|
@@ -320,7 +321,18 @@ ssize_t write(int fd, const void *buf, size_t n) {
     init();
     if (fd == MARK_FD) {
         pthread_mutex_lock(&mu);
-        if (n >= 3 && memcmp(buf, "ARM", 3) == 0) {
+        if (n >= 4 && memcmp(buf, "ARM2", 4) == 0) {
+            /* second fault of a pair: re-arm with JV_SHIM_FAIL2 */
+            const char *f2 = getenv("JV_SHIM_FAIL2");
+            fail_nth = 0; fail_errno = 0; fail_short = -1; fail_next_write = 0;
+            if (f2 && *f2) {
+                sscanf(f2, "%d:%d", &fail_nth, &fail_errno);
+                const char *s2 = strstr(f2, "short=");
+                if (s2) fail_short = atoi(s2 + 6);
+            }
+            armed = 1;
+            counted = 0;
+        } else if (n >= 3 && memcmp(buf, "ARM", 3) == 0) {
             armed = 1;
             counted = 0;
         }
